@@ -1,5 +1,5 @@
 SPECIFICATION Spec
 CONSTANTS
-  Families = {"A1", "B", "C0", "E0", "K0"}
+  Families = {"A1", "B", "C0", "E0", "K0", "R"}
 PROPERTY DescriptionTrue
 CHECK_DEADLOCK FALSE
